@@ -29,9 +29,9 @@ func init() {
 				Blocks:   32,
 				Procs:    16,
 				Rule: "case = (key type and comparator: int natural, int reversed via NewFunc, string natural, string case-folding via NewFunc; universe size; history of Set/Delete/Clear through the map and through a copy of it). " +
-					"After EVERY mutation: Len, Get/GetOK (all keys of small universes, sampled otherwise), Keys, String (exact comparators), First->Next sweep to the end, Last->Prev sweep to the start, Seek(k) for every k in [min-2,max+2] (sampled for large universes) followed by Next-steps and Prev-steps, re-Seek of an already positioned iterator to each kind of target, Key/Value of invalid iterators; periodically the delete-while-iterating idiom with re-Seek after each Delete; histories drain below 1/8 of their peak to reach the delete-side rebuild. Sparse-observation histories: maps of 100..1000 keys, operations chosen with locality (neighbouring keys), only the results of Set/Delete/GetOK themselves checked and nothing read in between (state carried from call to call is not disturbed by the monitor), full comparison every 400 operations. Zero Map: every documented read-only method. " +
+					"After EVERY mutation: Len, Get/GetOK (all keys of small universes, sampled otherwise), Keys, String (exact comparators), First->Next sweep to the end, Last->Prev sweep to the start, Seek(k) for every k in [min-2,max+2] (sampled for large universes) followed by Next-steps and Prev-steps, re-Seek of an already positioned iterator to each kind of target, Key/Value of invalid iterators; periodically the delete-while-iterating idiom with re-Seek after each Delete; histories drain below 1/8 of their peak to reach the delete-side rebuild. Sparse-observation histories: maps of 100..1000 keys, operations chosen with locality (neighbouring keys), only the results of Set/Delete/GetOK themselves checked and nothing read in between (state carried from call to call is not disturbed by the monitor), full comparison every 400 operations. Zero Map: every documented read-only method. String-valued maps whose keys and values are awkward strings (blanks at either end, the separators String writes, format verbs, empty), String/Keys/iterators/GetOK compared after every operation. " +
 					"distinct = hash(comparator, universe, ops); non-trivial = the history performed seeks to all four target kinds (present, absent inside, below minimum, above maximum) and at least one Delete of a present key",
-				Required:     []string{"steps", "seek_present", "seek_absent_inside", "seek_below_min", "seek_above_max", "reseek_past_end", "iter_edit_idiom_runs", "deep_drains", "zero_map_checks", "copy_shares_checks", "prev_from_seek", "kept_iterator_reseeks", "float_key_maps", "sparse_observation_histories"},
+				Required:     []string{"steps", "seek_present", "seek_absent_inside", "seek_below_min", "seek_above_max", "reseek_past_end", "iter_edit_idiom_runs", "deep_drains", "zero_map_checks", "copy_shares_checks", "prev_from_seek", "kept_iterator_reseeks", "float_key_maps", "sparse_observation_histories", "string_value_steps"},
 				Assumptions:  []string{"reference model: sorted slice of pairs; keys are compared with the map's own comparator (stored key spelling under a case-folding comparator is not constrained)"},
 				CoverPkgs:    []string{"github.com/creachadair/mds/omap", "github.com/creachadair/mds/stree"},
 				CoverAnchors: []string{"omap/omap.go", "stree/stree.go:InorderAfter", "stree/node.go:inorderAfter", "stree/stree.go:Cursor", "stree/stree.go:Replace", "stree/stree.go:Remove", "stree/cursor.go:Next", "stree/cursor.go:Prev", "stree/cursor.go:findNext", "stree/cursor.go:findPrev"},
@@ -650,6 +650,12 @@ func runC04(c *fw.Ctx) {
 			c04zero(c)
 		}
 		r := c.Rng()
+		for rep := 0; rep < 4; rep++ {
+			ok, pv, stack := fw.Try(func() { c04values(c, r) })
+			if !ok {
+				c.FailKind("panic", map[string]any{"map": "omap.New[string,string]"}, "panic: %v\n%s", pv, stack)
+			}
+		}
 		uni := []int{6, 10, 16, 24, 40, 48, 100, 200, 300, 1000}[r.IntN(10)]
 		if i%5 == 4 {
 			uni = 2 + r.IntN(6)
@@ -696,5 +702,88 @@ func runC04(c *fw.Ctx) {
 			}
 			c04start(c, "omap.NewFunc[string,int](case-folding)", omap.NewFunc[string, int](fold), fold, false, gen, uni, i)
 		}
+	}
+}
+
+// c04values: maps whose keys and values are awkward strings (blanks at either
+// end, the separators String itself writes, format verbs, empty). Get, Keys,
+// the iterators' Value and String are compared with a reference after every
+// operation; String is "omap[" + "k:v" joined by single blanks + "]".
+func c04values(c *fw.Ctx, r *rand.Rand) {
+	words := []string{"", " ", "  ", "x ", " x", "x  ", "a:b", ":", "]", "[", "omap[", "omap[]", "%v", "%!v(MISSING)", "%d", "\n", "x\n", "\t", "x\t ", "é ", "a b", "0", "nil", "<nil>"}
+	m := omap.New[string, string]()
+	ref := map[string]string{}
+	var log opLog
+	fail := func(format string, args ...any) {
+		c.Fail(map[string]any{"map": "omap.New[string,string]", "ops": log.list()}, format, args...)
+	}
+	steps := 40 + r.IntN(160)
+	for s := 0; s < steps; s++ {
+		k, v := words[r.IntN(len(words))], words[r.IntN(len(words))]
+		switch x := r.IntN(10); {
+		case x < 6:
+			log.add("Set(%q,%q)", k, v)
+			_, had := ref[k]
+			if got := m.Set(k, v); got == had {
+				fail("Set(%q) = %v, key present before = %v", k, got, had)
+				return
+			}
+			ref[k] = v
+		case x < 9:
+			log.add("Delete(%q)", k)
+			_, had := ref[k]
+			if got := m.Delete(k); got != had {
+				fail("Delete(%q) = %v, key present = %v", k, got, had)
+				return
+			}
+			delete(ref, k)
+		default:
+			log.add("Clear()")
+			m.Clear()
+			ref = map[string]string{}
+		}
+		c.Step()
+		keys := make([]string, 0, len(ref))
+		for k := range ref {
+			keys = append(keys, k)
+		}
+		sort.Strings(keys)
+		var sb strings.Builder
+		sb.WriteString("omap[")
+		for i, k := range keys {
+			if i > 0 {
+				sb.WriteByte(' ')
+			}
+			sb.WriteString(fmt.Sprint(k) + ":" + fmt.Sprint(ref[k]))
+		}
+		sb.WriteString("]")
+		if got := m.String(); got != sb.String() {
+			fail("String = %q, want %q", got, sb.String())
+			return
+		}
+		if got := m.Keys(); len(got) != len(keys) || (len(keys) > 0 && !equalStrings(got, keys)) {
+			fail("Keys = %q, want %q", got, keys)
+			return
+		}
+		i := 0
+		for it := m.First(); it.IsValid(); it.Next() {
+			if i >= len(keys) || it.Key() != keys[i] || it.Value() != ref[keys[i]] {
+				fail("First/Next entry %d is %q:%q, reference %q", i, it.Key(), it.Value(), keys)
+				return
+			}
+			i++
+		}
+		if i != len(keys) || m.Len() != len(keys) {
+			fail("iteration visited %d entries, Len=%d, reference has %d", i, m.Len(), len(keys))
+			return
+		}
+		for _, k := range words {
+			want, had := ref[k]
+			if got, ok := m.GetOK(k); ok != had || got != want || m.Get(k) != want {
+				fail("GetOK(%q) = (%q,%v), want (%q,%v)", k, got, ok, want, had)
+				return
+			}
+		}
+		c.Add("string_value_steps", 1)
 	}
 }
